@@ -120,7 +120,11 @@ class Ex:
             i += 2
         elif i < len(s) and s[i] in '/?':
             d = s[i]
-            j = s.index(d, i + 1)
+            j = i + 1
+            while j < len(s) and s[j] != d:        # an escaped delimiter belongs to the pattern
+                j += 2 if s[j] == '\\' and j + 1 < len(s) else 1
+            if j >= len(s):
+                raise ValueError('unterminated pattern address')
             pat = s[i + 1:j]
             if pat:
                 self.lastpat = parse_simple_re(pat)
@@ -220,6 +224,12 @@ class Ex:
     def setreg(self, name, texts, linewise=True):
         if name == '':
             name = '"'
+        if linewise and (name == '"' or (len(name) == 1 and name.isalpha() and name.isascii())):
+            # every line-wise store through the unnamed or a letter register also goes to "1, the older ones move up to "9
+            for i in range(8, 0, -1):
+                if str(i) in self.regs:
+                    self.regs[str(i + 1)] = self.regs[str(i)]
+            self.regs['1'] = (list(texts), True)
         if name.isupper():
             low = name.lower()
             old = self.regs.get(low, ([], True))[0]
